@@ -533,6 +533,10 @@ def oracle_parse(gi, d, words, target, vocab=None):
         return "domain is not empty"
     if d.cod != target or target != d.cod:
         return "codomain is not the requested target"
+    # the same comparison without the library's == : names and winding numbers, one by one
+    if [(repr(o.name), getattr(o, "z", 0)) for o in d.cod.objects] != \
+            [(repr(o.name), getattr(o, "z", 0)) for o in target.objects]:
+        return "codomain %r is not the requested target %r (compared as (name, winding) pairs)" % (d.cod, target)
     k = 0
     while k < len(d.boxes) and isinstance(d.boxes[k], pregroup.Word):
         k += 1
@@ -647,7 +651,10 @@ def literal_streams(rep, gi, rng, count):
     s, n, p = rigid.Ty('s'), rigid.Ty('n'), rigid.Ty('p')
     vocab_types = [n, n.r @ s @ n.l, n.r @ s, s @ n.l, n @ n.l, n.r @ n, s, p, p.r @ s, n.r @ n.r @ s @ n.l,
                    s.r @ s, n.l.l @ n.l, rigid.Ty()]
-    targets = [s, rigid.Ty(), n, s @ s, n @ s, p, n.r @ s]
+    from discopy import monoidal as _monoidal
+    targets = [s, rigid.Ty(), n, s @ s, n @ s, p, n.r @ s,
+               _monoidal.Ty('s'), _monoidal.Ty('n'), s.l, s.r, _monoidal.Ty('s', 's')]     # plain (unwound) targets too
+    vocab_types = vocab_types + [n.r @ s.l, s.r @ n.l, n.r @ s.r, s.l @ n.l, s.l, s.r]
     bad = 0
 
     def fail(what, payload):
